@@ -5,7 +5,7 @@ import treegen, lexgen, vlib
 from vlib import Violation
 
 PID = "C02"
-TARGETS = ["Run.vo", "Header_proofs.vo", "Message_proofs.vo"]
+TARGETS = ["Run.vo", "Header_proofs.vo", "Message_proofs.vo", "NonVacuous/C02.vo"]
 IMPORTS = "From VF Require Import Base Show Gen_Errors Lexer Response Tree Scripted HeaderSpec Run."
 ALLOWED_AXIOMS = []
 PROFILES = ["debug"]
